@@ -5,6 +5,7 @@ import DM.Props.C08
 import DM.Lemmas.AsciiRT
 import DM.Lemmas.X12RT
 import DM.Lemmas.B256RT
+import DM.Lemmas.EdiRT
 /-!
 # C01 — the symbol-level half of the round trip, for all sizes and all contents
 
@@ -239,5 +240,32 @@ example : DM.Model.Enc.run (symbolList (List.range 30)) [] [200, 201, 202] [(3, 
     .ok ([231, 44, 137, 32, 182], 1) := by decide +kernel
 example : DM.Model.Enc.run (symbolList (List.range 30)) [] [200, 201] [(2, .base256), (0, .base256)] =
     .ok ([231, 46, 137, 32, 129], 1) := by decide +kernel
+
+/-! ## The data-level half for a message planned entirely in EDIFACT
+
+`edifact_roundtrip` (all characters in the EDIFACT range 32..94): complete quadruples, then one of the
+end-of-data forms `edifact::encode` chooses from the space left in the symbol — the rest (≤ 4
+characters) as ≤ 2 ASCII codewords without UNLATCH when the symbol has ≤ 2 codewords left
+(`try_ascii_end`, at a group boundary or with characters already buffered), the UNLATCH value in the
+next free slot of a last group (which needs three codewords in the symbol to be read as EDIFACT: the
+proof shows the encoder's space tests guarantee them), or the exact end of the symbol. The branch
+"write the buffered characters without UNLATCH" of `handle_end` is shown unreachable: whenever its
+condition holds, `try_ascii_end` has already succeeded. -/
+
+theorem edifact_roundtrip (list : List Sym) (body cw : List Nat) (sym : Sym) (hc : ∀ x ∈ body, 32 ≤ x ∧ x ≤ 94)
+    (h : DM.Model.Enc.run list [] body [(body.length, .edifact), (0, .edifact)] = .ok (cw, sym)) :
+    DM.Model.Dec.decodeData cw = .ok body :=
+  DM.Lemmas.EdiRT.pure_edifact_roundtrip list body cw sym hc h
+
+/-- Non-vacuity: ASCII end with nothing left, ASCII end with one character, UNLATCH in the third slot
+with the symbol exactly full, UNLATCH in the first slot followed by padding. -/
+example : DM.Model.Enc.run (symbolList (List.range 30)) [] [65, 66, 67, 68] [(4, .edifact), (0, .edifact)] =
+    .ok ([240, 4, 32, 196, 129], 1) := by decide +kernel
+example : DM.Model.Enc.run (symbolList (List.range 30)) [] [65, 66, 67, 68, 69] [(5, .edifact), (0, .edifact)] =
+    .ok ([240, 4, 32, 196, 70], 1) := by decide +kernel
+example : DM.Model.Enc.run (symbolList (List.range 30)) [] [65, 66, 67, 68, 69, 70, 71, 72, 73, 74]
+    [(10, .edifact), (0, .edifact)] = .ok ([240, 4, 32, 196, 20, 97, 200, 36, 167, 192], 4) := by decide +kernel
+example : DM.Model.Enc.run (symbolList [5]) [] [65, 66, 67, 68, 69, 70, 71, 72] [(8, .edifact), (0, .edifact)] =
+    .ok ([240, 4, 32, 196, 20, 97, 200, 124, 129, 101, 251, 147], 5) := by decide +kernel
 
 end DM.Props.C01
